@@ -137,6 +137,36 @@ theorem C20_event_quiescent (fix : Bool) (c : Conn) (bits : List Bool) (s0 : Cfg
   simp only [latest, hqe, hp, List.getLast?_nil] at h
   exact ⟨hp, h⟩
 
+/-- The same in terms of what is observable on the wire: if the loop program contains no write by
+    `c` itself (other connections may write) and nothing had been written to `c` at the start, then
+    at quiescence the last EVENT written to `c` carries the final value — or none was written and
+    the value equals what `c` knew at the start. -/
+theorem C20_event_quiescent_delivered (fix : Bool) (c : Conn) (bits : List Bool) (s0 : Cfg)
+    (hq : Quiet s0) (hk : s0.topicKey = true) (hc : c ∈ s0.subs)
+    (hun : ∀ op ∈ s0.lops, op ≠ LoopOp.unsub c)
+    (hpt : s0.pending c ≠ none → s0.timer c = true)
+    (h0 : (latest c s0).val = s0.value.val)
+    (hs : Serial fix bits s0)
+    (hnw : ∀ op ∈ s0.lops, ∀ v, op ≠ LoopOp.write c v) (hd0 : s0.delivered c = []) :
+    (run fix bits s0).wpc = .idle → (run fix bits s0).queue = [] → (run fix bits s0).timer c = false →
+    (∃ d, ((run fix bits s0).delivered c).getLast? = some d ∧ d.val = (run fix bits s0).value.val) ∨
+    ((run fix bits s0).delivered c = [] ∧ (s0.knows c).val = (run fix bits s0).value.val) := by
+  intro hw hqe ht
+  have h := (C20_event_quiescent fix c bits s0 hq hk hc hun hpt h0 hs hw hqe ht).2
+  have hk0 : KnowsInv c (s0.knows c) s0 := by simp [KnowsInv, hd0]
+  have hkn := knows_run fix c (s0.knows c) bits s0 hnw hk0
+  unfold KnowsInv at hkn
+  rw [hkn] at h
+  cases hd : ((run fix bits s0).delivered c).getLast? with
+  | none =>
+    right
+    rw [hd] at h
+    exact ⟨List.getLast?_eq_none_iff.mp hd, by simpa using h⟩
+  | some d =>
+    left
+    rw [hd] at h
+    exact ⟨d, rfl, by simpa using h⟩
+
 /-- **Exactly the changing updates reach the loop, in order, every schedule** (loop programs
     without controller writes).  Under the hypotheses of C20_event (some connection `c` is and
     stays subscribed, so the topic exists whenever `publish` tests it): once the worker has
